@@ -24,6 +24,9 @@ type WalkOpts struct {
 	MeasureAll    bool
 	RecordPayable bool
 	Reconfigure   bool // gas schedule changes and epoch notifications among the steps
+	FlipPayable   bool // the payability oracle's answer for a contract changes among the steps
+	PadNumbers    bool // numeric arguments of transfer calls get leading zero bytes now and then
+	Faults        int  // percent of legs during which one injectable dependency call fails
 	OnLeg         func(u *gen.Universe, m *Mon, l *node.Leg)
 	Setup         func(u *gen.Universe, m *Mon)
 }
@@ -36,6 +39,7 @@ type Walk struct {
 	O       WalkOpts
 	creator map[string][]byte // token -> current create-role holder (sys actor's book-keeping)
 	handing map[string]bool
+	flipR   *harness.Rand // side stream for payability flips
 }
 
 var amountsPool = []*big.Int{big.NewInt(1), big.NewInt(2), big.NewInt(7), big.NewInt(50), big.NewInt(1000), gen.Pow2(64), new(big.Int).Add(gen.Pow2(70), big.NewInt(12345)),
@@ -55,7 +59,7 @@ func NewWalk(r *harness.Rand, rep *harness.Reporter, o WalkOpts, enabled ...stri
 	}
 	m.Attach(u.N)
 	u.N.RecordPayable = o.RecordPayable
-	w := &Walk{U: u, M: m, R: r, O: o, creator: map[string][]byte{}, handing: map[string]bool{}}
+	w := &Walk{U: u, M: m, R: r, O: o, creator: map[string][]byte{}, handing: map[string]bool{}, flipR: r.Side(0x666c6970)}
 	if o.OnLeg != nil {
 		u.N.Observers = append(u.N.Observers, func(n *node.Node, l *node.Leg) { o.OnLeg(u, m, l) })
 	}
@@ -69,6 +73,17 @@ func NewWalk(r *harness.Rand, rep *harness.Reporter, o WalkOpts, enabled ...stri
 	w.setup()
 	if o.Setup != nil {
 		o.Setup(u, m)
+	}
+	if o.Faults > 0 {
+		fr := r.Side(0x6661756c74)
+		inj := injectable(u.W)
+		u.N.AbortOnFault = true
+		u.N.PreRun = func(int) {
+			u.W.Fault = nil
+			if fr.Chance(o.Faults) {
+				u.W.Fault = &world.FaultPlan{FailAt: 1 + fr.Intn(7), Injectable: inj}
+			}
+		}
 	}
 	return w
 }
@@ -683,6 +698,12 @@ func (w *Walk) Step() *node.Leg {
 		w.reconfigure()
 		return nil
 	}
+	if w.O.FlipPayable && w.flipR.Chance(6) && len(w.U.Contracts) > 0 {
+		// a contract is upgraded to (non-)payable, or the oracle starts failing for it
+		k := w.U.Contracts[w.flipR.Intn(len(w.U.Contracts))]
+		w.U.W.Payable[string(k)] = []int{world.PayYes, world.PayNo, world.PayNo, world.PayErr, world.PayDefault}[w.flipR.Intn(5)]
+		w.M.R.Cover("walk/payability-flips")
+	}
 	x := r.Intn(100)
 	switch {
 	case x < 34:
@@ -702,10 +723,21 @@ func (w *Walk) Step() *node.Leg {
 
 // Run executes the walk and drains the pool at the end.
 func (w *Walk) Run() {
+	if w.O.PadNumbers {
+		pr := w.R.Side(0x706164)
+		gen.NumPad = func() int {
+			if pr.Chance(25) {
+				return 1 + pr.Intn(3)
+			}
+			return 0
+		}
+		defer func() { gen.NumPad = nil }()
+	}
 	for i := 0; i < w.O.Steps; i++ {
 		w.Step()
 	}
 	w.U.N.DrainAll()
+	w.U.W.Fault = nil
 	if w.M.Enabled["C01"] {
 		w.M.conservation(w.U.N, &node.Leg{Call: node.Call{Func: "end-of-walk"}, OK: true}, true)
 	}
